@@ -2,6 +2,7 @@
 import Bashlex.Serialize
 import Bashlex.Spec.PyVal
 import Bashlex.Spec.Tree
+import Bashlex.Spec.Rel
 
 namespace Bashlex
 open Spec
@@ -32,6 +33,75 @@ def evalProp (prop : String) (src : Str) (parts : List Node) (dbg : Bool := fals
   | "C12" => (parts.map (schemaOK · dbg)).flatten
   | _ => ["unknown-property"]
 
+def parseHexStr (s : String) : Str :=
+  if s == "" || s == "-" then []
+  else (s.splitOn ".").filterMap fun h =>
+    let n := h.toList.foldl (fun acc c =>
+      let d := if '0' ≤ c && c ≤ '9' then c.toNat - 48
+               else if 'a' ≤ c && c ≤ 'f' then c.toNat - 87
+               else if 'A' ≤ c && c ≤ 'F' then c.toNat - 55 else 0
+      16 * acc + d) 0
+    if h == "" then none else some (Char.ofNat n)
+
+def isTree (line : String) : Bool := line.startsWith "OK " || line.startsWith "ONE "
+
+/-- relational verdicts: `rel <prop>:<params> <src> <outcome>...` → list of signatures -/
+def relEval (prop : String) (params : List String) (src : Str) (outs : List String) : List Viol :=
+  match prop, params, outs with
+  | "C16", [k], [unl, lim] =>
+    if !unl.startsWith "OK " then [] else
+    match outcomeNodes unl, outcomeNodes lim with
+    | .ok pu, .ok pl =>
+      if showNodes none (pruneLimitL k.toNat! pu) == showNodes none pl then [] else ["pruned-mismatch"]
+    | .ok _, .error _ => if isTree lim then ["limited-ill-typed"] else ["limited-parse-fails"]
+    | .error e, _ => ["ill-typed:" ++ e]
+  | "C13", [off], [a, b, ab] =>
+    if !(a.startsWith "OK ") || !(b.startsWith "OK ") then [] else
+    match outcomeNodes a, outcomeNodes b, outcomeNodes ab with
+    | .ok pa, .ok pb, .ok pab =>
+      if showNodes none (pa ++ pb.map (Node.shift off.toNat!)) == showNodes none pab then []
+      else ["combined-mismatch"]
+    | .ok _, .ok _, .error _ => if isTree ab then ["combined-ill-typed"] else ["combined-fails"]
+    | _, _, _ => ["ill-typed"]
+  | "C14", [p, w], [o1, o2] =>
+    if !o1.startsWith "OK " then [] else
+    match outcomeNodes o1, outcomeNodes o2 with
+    | .ok p1, .ok p2 =>
+      if showNodes none (p1.map (relayout p.toNat! w.toNat!)) == showNodes none p2 then []
+      else ["relayout-mismatch"]
+    | .ok _, .error _ => if isTree o2 then ["relayout-ill-typed"] else ["relayout-fails"]
+    | .error e, _ => ["ill-typed:" ++ e]
+  | "C17single", [], [par, one] =>
+    if par.startsWith "OK " then
+      match outcomeNodes par with
+      | .ok [] => if one == "ONE None" then [] else ["single-not-none-on-empty"]
+      | .ok (n :: _) => if one == "ONE " ++ showNode none n then [] else ["single-not-head"]
+      | .error e => ["ill-typed:" ++ e]
+    else if one == par || one.startsWith "ONE " then [] else ["single-raises-differently"]
+  | "C17convert", [], [plain, conv] =>
+    if isTree plain then
+      match outcomeNodes plain with
+      | .ok ps =>
+        let want := if plain.startsWith "OK " then "OK " ++ showNodes (some src) ps
+          else match ps with | [n] => "ONE " ++ showNode (some src) n | _ => "ONE None"
+        if want == conv then [] else ["convertpos-mismatch"]
+      | .error e => ["ill-typed:" ++ e]
+    else if plain == conv then [] else ["convertpos-changes-error"]
+  | "C17strict", [], [strict, lax] =>
+    if strict == lax then []
+    else if strict.startsWith "EXN PE|\"here-document at line" then []
+    else ["strictmode-changes-other-outcome"]
+  | "C17proceed", [], [plain, proc] =>
+    if plain == proc then []
+    else if plain == "EXN NI" then
+      (if proc.startsWith "OK " || proc.startsWith "ONE " then
+         (if (proc.splitOn "kind=\"unimplemented\"").length > 1 then [] else ["proceed-without-unimplemented-node"])
+       -- a later construct may still be rejected (or unsupported) once parsing goes on
+       else if proc.startsWith "EXN PE|" || proc == "EXN NI" then []
+       else ["proceed-raises-foreign:" ++ ((proc.drop 4).toString.splitOn "|").getD 1 ""])
+    else ["proceedonerror-changes-other-outcome"]
+  | _, _, _ => ["bad-rel-request"]
+
 /-- `spec <props> <src> <outcome line>` → `C03:sig,sig C12:` ...; `ILL:<reason>` if the outcome
     is not a well-typed tree -/
 def specHandle (cmd opts inp : String) (extra : List String) : String :=
@@ -43,6 +113,12 @@ def specHandle (cmd opts inp : String) (extra : List String) : String :=
     | .ok parts =>
       " ".intercalate ((opts.splitOn ",").map fun p =>
         p ++ ":" ++ ",".intercalate (dedup (evalProp p src parts (cmd == "specdbg"))))
+  | "rel", outs =>
+    match opts.splitOn ":" with
+    | prop :: params =>
+      let params := match params with | [] => [] | ps => (":".intercalate ps).splitOn "," |>.filter (· != "")
+      ",".intercalate (dedup (relEval prop params (parseHexStr inp) outs))
+    | [] => "BAD-REQUEST"
   | _, _ => "BAD-REQUEST"
 where
   parseHexInputS (s : String) : Str :=
